@@ -156,6 +156,34 @@ def r13_unsupported_operands(check, prog):
                       'fit)' % (show(bad[0].value)[:100] if bad and bad[0].value
                                 is not None else None))
     check.floor('operator methods of Prior that build derived priors', n, 4)
+    # the same operation spelled as a NumPy function arrives at __array_ufunc__:
+    # every path that builds a derived prior from the operands as given holds a
+    # test of the operands' types (isinstance over every operand)
+    q = cq + '.__array_ufunc__'
+    fdq = prog.func(q)
+    it = Interp(prog, max_depth=0, inline_new=False)
+    res = it.analyze(q)
+    builds = [o for o in res.outcomes if o.kind == 'return' and o.value is not None
+              and o.value[0] in ('new', 'call') and 'TransformedPrior' in show(o.value)]
+    check.need('derived priors built in Prior.__array_ufunc__', len(builds), 1,
+               'R13-unsupported-operand', 'Prior.__array_ufunc__ builds',
+               'NumPy functions of a prior give derived priors', prog.loc(q, fdq))
+    for o in builds:
+        guarded = any(
+            p is True and t[0] == 'call' and t[1] == 'all' and any(
+                x[0] == 'call' and x[1] == 'isinstance' for x in subterms(t))
+            or p is False and t[0] == 'call' and t[1] == 'any' and any(
+                x[0] == 'un' and x[1] == 'not' and x[2][0] == 'call' and
+                x[2][1] == 'isinstance' for x in subterms(t))
+            for t, p in o.cond)
+        check.require(guarded, 'R13-unsupported-operand', 'Prior.__array_ufunc__',
+                      'a derived prior is built from the operands of a NumPy function '
+                      'only after their types were tested', prog.loc(q, fdq),
+                      fail_detail='__array_ufunc__ returns %s whatever the operands '
+                      'are: np.power(prior, \'a\'), np.maximum(prior, None), '
+                      'np.hypot(prior, None) are accepted and fail only when the '
+                      'derived prior is evaluated, while prior ** \'a\' raises '
+                      'TypeError at once' % show(o.value)[:70])
 
 
 def r12_complex_prior(check, prog):
